@@ -125,7 +125,7 @@ Theorem C20_childless_enum_refuted :
   /\ wf_edges [(C20_w_ev, C20_w_fm); (C20_w_fm, C20_w_en)] = true
   /\ pipeline C20_w_dump2 = Some [("Event", CStruct [("marker", FTypeName "Marker")]); ("Request", request_container)]
   /\ option_map closed_mod_requestb (pipeline C20_w_dump2) = Some false
-  /\ known_childless [(C20_w_ev, C20_w_fm); (C20_w_fm, C20_w_en)] "Marker" = true.
+  /\ known_childless [C20_w_en] [(C20_w_ev, C20_w_fm); (C20_w_fm, C20_w_en)] "Marker" = true.
 Proof. vm_compute. repeat split. Qed.
 
 (* known class renamed_type_reference: serde(rename = "Tag") on the struct: defined as Tag, referred to as Marker *)
@@ -135,7 +135,7 @@ Definition C20_w_es3 : edges := [(C20_w_ev, C20_w_fm); (C20_w_fm, C20_w_rn); (C2
 Theorem C20_renamed_reference_refuted :
   wf_edges C20_w_es3 = true
   /\ format C20_w_es3 = [("Event", CStruct [("marker", FTypeName "Marker")]); ("Request", request_container); ("Tag", CNewTypeStruct (FPrim PU8))]
-  /\ closed_mod_requestb (format C20_w_es3) = false /\ known_renamed C20_w_es3 "Marker" = true.
+  /\ closed_mod_requestb (format C20_w_es3) = false /\ known_renamed (items_of C20_w_es3) "Marker" = true.
 Proof. vm_compute. repeat split. Qed.
 
 (* known class nested_range_undefined: a field of type Option<Range<u32>> *)
